@@ -1,6 +1,7 @@
 package c18
 
 import (
+	"math/big"
 	"encoding/hex"
 	"fmt"
 	"math/rand"
@@ -179,7 +180,7 @@ func (e *env) ext(a common.Address) string { return crosschaintypes.ExternalAddr
 func (e *env) addToken(native bool) token {
 	e.ntok++
 	ctx := e.s.Ctx
-	base := fmt.Sprintf("tok%d%c", e.ntok, 'a'+rune(e.rng.Intn(26)))
+	base := fmt.Sprintf("tok%03d%c", e.ntok, 'a'+rune(e.rng.Intn(26)))
 	contract := e.ext(e.randAddr())
 	bridge := crosschaintypes.NewBridgeDenom(e.chain, contract)
 	if err := e.k.SetToken(ctx, "Test Token", strings.ToUpper(base), 18, bridge); err != nil {
@@ -192,6 +193,10 @@ func (e *env) addToken(native bool) token {
 	if !native {
 		// native ERC-20: bridge tokens are unlocked from the module, the ERC-20 side is unescrowed from the erc20 module
 		e.s.MintTokenToModule(e.chain, sdk.NewCoin(bridge, sdkmath.NewInt(1_000_000_000)))
+		mod := e.s.App.Erc20Keeper.ModuleAddress()
+		if err := e.s.App.EvmKeeper.ERC20Mint(ctx, erc20, mod, mod, big.NewInt(1_000_000_000)); err != nil {
+			panic(err)
+		}
 	}
 	return token{base: base, bridge: bridge, contract: contract, erc20: erc20, native: native}
 }
